@@ -110,6 +110,9 @@ structure Proc where
   w : Option (Path × Bool)     -- open write handle: (path, dump done)
   tc : Bool                    -- a dumped handle was closed since the last openW
   computed : Bool
+  mkd : Bool := false          -- ghost: this run executed mkdir
+  te : Bool := false           -- ghost: this run created its tmp file and has not renamed/unlinked it since
+  faulted : Bool := false      -- ghost: an `exc` or `kill` event was injected into this run
   deriving Repr
 
 structure St where
@@ -175,10 +178,10 @@ def exec (cfg : Cfg) (i : Nat) (p : Proc) (fs : FS) (dir : Bool) (g : GOp) : Opt
   | .compute =>
     if cfg.valid p.text then some ⟨{ p with computed := true }, fs, dir, []⟩
     else some ⟨{ p with mode := .finished (.err p.text) }, fs, dir, []⟩
-  | .mkdir eok => if dir && !eok then none else some ⟨p, fs, true, [.mkdir]⟩   -- FileExistsError
+  | .mkdir eok => if dir && !eok then none else some ⟨{ p with mkd := true }, fs, true, [.mkdir]⟩   -- FileExistsError
   | .openW pe =>
     if dir then
-      some ⟨{ p with w := some (pathOf cfg i p pe, false), tc := false },
+      some ⟨{ p with w := some (pathOf cfg i p pe, false), tc := false, te := (pe == .tmp) || p.te },
             fs.set (pathOf cfg i p pe) (some ⟨p.text, false⟩), dir, [.write (pathOf cfg i p pe)]⟩
     else none                                        -- FileNotFoundError (no directory)
   | .dump =>
@@ -194,12 +197,12 @@ def exec (cfg : Cfg) (i : Nat) (p : Proc) (fs : FS) (dir : Bool) (g : GOp) : Opt
     match fs (pathOf cfg i p s) with
     | none => none                                   -- FileNotFoundError
     | some c =>
-      some ⟨p, (fs.set (pathOf cfg i p d) (some c)).set (pathOf cfg i p s) none, dir,
+      some ⟨{ p with te := !(s == .tmp) && p.te }, (fs.set (pathOf cfg i p d) (some c)).set (pathOf cfg i p s) none, dir,
             [.write (pathOf cfg i p s), .write (pathOf cfg i p d)]⟩
   | .unlink pe mok =>
     match fs (pathOf cfg i p pe) with
-    | none => if mok then some ⟨p, fs, dir, [.write (pathOf cfg i p pe)]⟩ else none
-    | some _ => some ⟨p, fs.set (pathOf cfg i p pe) none, dir, [.write (pathOf cfg i p pe)]⟩
+    | none => if mok then some ⟨{ p with te := !(pe == .tmp) && p.te }, fs, dir, [.write (pathOf cfg i p pe)]⟩ else none
+    | some _ => some ⟨{ p with te := !(pe == .tmp) && p.te }, fs.set (pathOf cfg i p pe) none, dir, [.write (pathOf cfg i p pe)]⟩
   | .ret =>
     if p.computed then some ⟨{ p with mode := .finished (.ok p.text) }, fs, dir, []⟩ else none
 
@@ -256,14 +259,14 @@ def step (cfg : Cfg) (s : St) : Event → St
       | [] => s
       | g :: rest =>
         let r := raise { p with todo := rest } s.fs g
-        { s with fs := r.2, procs := setProc s i (settle r.1), trace := (i, g.op, true) :: s.trace }
+        { s with fs := r.2, procs := setProc s i (settle { r.1 with faulted := true }), trace := (i, g.op, true) :: s.trace }
   | .kill i =>
     match s.procs i with
     | none => s
     | some p =>
       match p.todo with
       | [] => s
-      | _ :: _ => { s with procs := setProc s i { p with todo := [], mode := .finished .killed, w := none } }
+      | _ :: _ => { s with procs := setProc s i { p with todo := [], mode := .finished .killed, w := none, faulted := true } }
 
 def run (cfg : Cfg) (sched : List Event) (s : St) : St :=
   sched.foldl (step cfg) s
